@@ -66,9 +66,28 @@ func c17Fits(v *big.Int, typ string) bool {
 // c17Call invokes the instantiation of NewMatchField for the argument type. It also reports
 // whether the caller's argument was modified.
 func c17Call(name string, v *big.Int, typ string, mask []int) (f *of.MatchField, err error, pn any, argModified string) {
+	// the mask arguments are handed over as a slice with spare capacity (the way a caller slicing a
+	// table of windows does): neither the arguments nor the elements behind them may be written
+	const sentinel = -7777
+	whole := make([]int, len(mask)+4)
+	copy(whole, mask)
+	for i := len(mask); i < len(whole); i++ {
+		whole[i] = sentinel
+	}
+	given := append([]int{}, mask...)
+	mask = whole[:len(mask):len(whole)]
 	defer func() {
 		if p := recover(); p != nil {
 			pn = p
+		}
+		for i, x := range whole {
+			want := sentinel
+			if i < len(given) {
+				want = given[i]
+			}
+			if x != want && argModified == "" {
+				argModified = fmt.Sprintf("the caller's mask arguments %v (backing array %v...) were changed to %v", given, append(append([]int{}, given...), sentinel), whole)
+			}
 		}
 	}()
 	switch typ {
